@@ -207,6 +207,20 @@ theorem cutoffs_equal_after_step {H : Type} (I : Iface H) (c : Container H)
     rw [← e]
     exact padTo_length _ _ (le_trans (hlen r0 hr0) (le_maxCutoff hr0))
 
+/-- The same **without any assumption on the managers** (a manager may hold more slots than its
+sampler's cutoff, e.g. after `get_manager_mut().set_cutoff(big)`): the cutoff FIELD of every replica
+is the previous maximum of the cutoff fields — one cutoff for the whole ladder, never the private
+length of some manager — and every string has at least that many slots. -/
+theorem one_cutoff_after_step_any_managers {H : Type} (I : Iface H) (c : Container H)
+    (hn : 2 ≤ c.graphs.length) :
+    ∀ r ∈ (temperingStep I c).1.graphs,
+      r.cutoff = maxCutoff c.graphs ∧ maxCutoff c.graphs ≤ r.cfg.slots.length := by
+  have h : ¬ c.graphs.length ≤ 1 := by omega
+  have sp := stepBody_spec I (performSwaps I) (goodSwap_serial I) c
+  unfold temperingStep
+  rw [if_neg h]
+  exact sp.2.1
+
 /-! ## 5. The counter counts exactly the accepted exchanges -/
 
 /-- `total_swaps` grows by the number of accepted decisions of the step; every decision is the test
